@@ -22,11 +22,11 @@ def sample_cfg(rng, clean=None):
     name = rng.choice(["nacl", "tetab", "tric", "fe2"])
     cell = dict(name=name, ext=rng.random() < 0.4,
                 mag=(rng.choice(["none", "col", "noncol"]) if name == "fe2" else "none"),
-                masses=rng.choice(["std", "c6", "c9"]))
+                masses=rng.choice(["std", "c6", "c9"]), generic=rng.random() < 0.4)
     t = rng.choice([0, 1, 1, 2, 2])
     ds = dict(type=t, forces=(t != 0 and rng.random() < 0.7), energies=(t != 0 and rng.random() < 0.4))
     kind = rng.choice(["none", "plain", "plain", "gonze", "wang"])
-    fc = rng.choice(["none", "full", "compact"])
+    fc = rng.choice(["none", "none", "full", "compact"])
     # (an object holding force constants cannot hold NAC parameters without a unit factor: KeyError in the API)
     obj = dict(cell=cell, calc=rng.choice(["none", "qe"]), ds=ds, fc=fc,
                nac=dict(kind=kind, factor=(kind != "none" and (fc != "none" or rng.random() < 0.5))))
@@ -37,7 +37,7 @@ def sample_cfg(rng, clean=None):
     st = dict(fs=tri(), disp=tri(), fc=tri(0.25, 0.35), born=tri(0.15), eps=tri(0.15))
     comp = rng.choice(["F", "T", "xz"])
     if clean is None:
-        clean = rng.random() < 0.45
+        clean = rng.random() < 0.55
     args = dict(isCompact=rng.random() < 0.6, produceFc=rng.random() < 0.8, isNac=rng.random() < 0.85,
                 nacArg=False, bornFile=False, fsFile=0, fcFile="none", calcArg="none")
     env = dict(FS=0, FC="none", H5="none", BORN=False)
@@ -47,7 +47,7 @@ def sample_cfg(rng, clean=None):
                     calcArg=rng.choice(["none", "none", "none", "vasp", "qe"]))
         env.update(FS=rng.choice([0, 0, 1, 2]), FC=rng.choice(["none", "none", "full", "compact"]),
                    H5=rng.choice(["none", "none", "full", "compact"]), BORN=rng.random() < 0.35)
-    return dict(obj=obj, st=st, comp=comp, args=args, env=env)
+    return dict(obj=obj, st=st, comp=comp, args=args, env=env, big=rng.random() < 0.25)
 
 
 RAISED_DUMMY = dict(calc="none", units="std",
@@ -76,6 +76,8 @@ def run_one(cfg, seed, gonze_budget=1.0):
             d = dict(RAISED_DUMMY)
             d.update(obs)
             obs = d
+            if getattr(w, "save_error", None) is not None:
+                obs["err"] = "save:" + obs["err"]  # never accepted by ImplLoads
         else:
             obs["err"] = "none"
             q["phonons"] = -1
@@ -90,7 +92,8 @@ def run_one(cfg, seed, gonze_budget=1.0):
                 else:
                     q["phonons"] = compare_phonons(w, ph, ph2, obs)
         ev = dict(eo=cfg["obj"], es=cfg["st"], ec=cfg["comp"], ea=cfg["args"], ee=cfg["env"],
-                  w=wr, container="xz" if w.filename.endswith(".xz") else "plain", obs=obs)
+                  w=wr, container=w.container, named="xz" if w.filename.endswith(".xz") else "plain", obs=obs,
+                  big=bool(cfg.get("big")), wseed=seed)
         return ev, dict(text=w.text, ph=ph, ph2=ph2, fc_exact=consistent_fc is None, ydoc=ydoc)
 
 
@@ -173,15 +176,26 @@ INVARIANT InvLoads
 """
 
 
-def saveload_layer(ctx, col):
-    n = 220 if ctx.quick else 4000
+def saveload_layer(ctx, col, replay_cfgs=None):
+    n = 220 if ctx.quick else 3000
     events, texts = [], []
     nprng = np.random.default_rng(ctx.seed + 77)
+    if replay_cfgs is not None:
+        n = len(replay_cfgs)
     for i in range(n):
-        cfg = sample_cfg(ctx.rng)
-        ev, aux = run_one(cfg, ctx.seed * 100003 + i, gonze_budget=0.2 if ctx.quick else 0.5)
+        if replay_cfgs is not None:
+            cfg, wseed = replay_cfgs[i]
+        else:
+            cfg, wseed = sample_cfg(ctx.rng), ctx.seed * 100003 + i
+        ev, aux = run_one(cfg, wseed, gonze_budget=1.0 if replay_cfgs is not None else (0.2 if ctx.quick else 0.5))
         events.append(ev)
-        T.yaml_events(col, aux["text"], aux["ph"], aux["ph2"], ev["obs"], origin="yaml#%d" % i, cap=(1 if ctx.quick else 3), rng=nprng)
+        if aux["text"]:
+            try:
+                T.yaml_events(col, aux["text"], aux["ph"], aux["ph2"], ev["obs"], origin="yaml#%d" % i,
+                              cap=(1 if ctx.quick else 3), rng=nprng)
+            except Exception as e:  # a saved file that is not YAML / not the documented layout
+                ctx.violation("text:yaml:Unreadable", "C16 the saved file cannot be walked as phonopy.yaml (%s: %s)" % (type(e).__name__, e),
+                              dict(event=ev, error=repr(e)))
         ctx.count(("saveload", to_tla(dict(obj=cfg["obj"], st=cfg["st"], comp=cfg["comp"], args=cfg["args"], env=cfg["env"]))))
     ctx.traces += len(events)
     violated_all = set()
@@ -203,6 +217,18 @@ def saveload_layer(ctx, col):
             ctx.violation("saveload:" + name, "C16 save/load requirement %s fails on the implementation's outcome" % name,
                           dict(invariant=name, event=e))
     ctx.extra["saveload_events"] = len(events)
+    stats = {}
+    for e in events:
+        o = e["obs"]
+        for k, v in (("status", o["status"]), ("ds.src", o["ds"]["src"]), ("ds.type", o["ds"]["type"]), ("fc.src", o["fc"]["src"]),
+                     ("fc.layout", o["fc"]["layout"]), ("nac.src", o["nac"]["src"]), ("nac.factor", o["nac"]["factor"]),
+                     ("calc", o["calc"]), ("container", e["container"]), ("cell", e["eo"]["cell"]["name"]),
+                     ("ext", e["eo"]["cell"]["ext"]), ("mag", e["eo"]["cell"]["mag"]), ("masses", e["eo"]["cell"]["masses"]),
+                     ("generic_lattice", e["eo"]["cell"]["generic"]), ("big_values", e["big"]),
+                     ("phonons", {-2: "skipped(budget)", -1: "not comparable"}.get(o["q"]["phonons"], "compared"))):
+            stats.setdefault(k, {})
+            stats[k][str(v)] = stats[k].get(str(v), 0) + 1
+    ctx.extra["saveload_distribution"] = stats
     ctx.sample(events[0])
     return events, texts, violated_all
 
@@ -210,7 +236,7 @@ def saveload_layer(ctx, col):
 MC_MODEL = r"""---- MODULE MC_SaveLoad ----
 EXTENDS SaveLoad
 B == BOOLEAN
-Cell0 == [name |-> "nacl", ext |-> FALSE, mag |-> "none", masses |-> "std"]
+Cell0 == [name |-> "nacl", ext |-> FALSE, mag |-> "none", masses |-> "std", generic |-> FALSE]
 DsAll == {[type |-> 0, forces |-> FALSE, energies |-> FALSE]} \cup
          {[type |-> t, forces |-> f, energies |-> e] : t \in {1, 2}, f \in B, e \in B}
 NacAll == {[kind |-> "none", factor |-> FALSE]} \cup {[kind |-> k, factor |-> f] : k \in {"plain", "gonze", "wang"}, f \in B}
@@ -343,7 +369,7 @@ def text_layer(ctx, col):
     tmp = tempfile.mkdtemp(prefix="c16t_", dir=os.path.join(W.VERIF, ".run"))
     outcomes = []
     try:
-        reps = 3 if ctx.quick else 40
+        reps = 3 if ctx.quick else 60
         for r in range(reps):
             for big in (False, True):
                 outcomes += T.force_sets_events(col, nprng, big, natom=int(nprng.integers(2, 4)), nd=2)
@@ -353,6 +379,14 @@ def text_layer(ctx, col):
         shutil.rmtree(tmp, ignore_errors=True)
     ctx.extra["codec_files"] = sorted(set(outcomes))
     evs = col.events
+    limit = 6000 if ctx.quick else 45000
+    if len(evs) > limit:
+        # bound the TLC runs: all lines of FORCE_SETS / FORCE_CONSTANTS / BORN, a seeded sample of the yaml lines
+        keep = [e for e in evs if not e.get("org", "").startswith("yaml")]
+        ys = [e for e in evs if e.get("org", "").startswith("yaml")]
+        idx = sorted(nprng.choice(len(ys), size=limit - len(keep), replace=False))
+        evs = keep + [ys[i] for i in idx]
+        ctx.extra["text_lines_sampled"] = dict(of=len(col.events), judged=len(evs))
     ctx.extra["text_lines"] = dict(events=len(evs), by_kind=col.bykind, skipped_not_short_decimal=col.skipped)
     ctx.traces += len(evs)
     for e in evs:
@@ -400,7 +434,10 @@ def text_layer(ctx, col):
     from harness.tlc import MachineryError
     files = [e for e in evs if not e.get("org", "").startswith("yaml")]
     yamls = [e for e in evs if e.get("org", "").startswith("yaml")]
-    ctx.extra["text_rounds"] = dict(files=judge(files, "files"), yaml=judge(yamls, "yaml"))
+    rounds = dict(files=judge(files, "files"), yaml=0)
+    for k in range(0, len(yamls), 8000):
+        rounds["yaml"] += judge(yamls[k:k + 8000], "yaml")
+    ctx.extra["text_rounds"] = rounds
     # which variant of the two repaired rows does the tree write?
     variant = {}
     samples = []
@@ -536,12 +573,32 @@ def run(ctx):
                 "configuration of SaveLoad.tla realised on the real code; distinct configurations are counted")
     import os
     table = T.format_table(ctx)
+    col = T.Collector(table)
+    if ctx.replay_path:
+        # ./check C16 --replay <file>: a save/load event is re-run alone (same configuration, same numbers);
+        # for the other classes (text, codec, born) the file-level layers are re-run with the recorded seed
+        import json
+        with open(ctx.replay_path) as f:
+            rp = json.load(f)
+        e = (rp.get("detail") or {}).get("event") or {}
+        if "eo" in e:
+            cfg = dict(obj=e["eo"], st=e["es"], comp=e["ec"], args=e["ea"], env=e["ee"], big=e.get("big", False))
+            events, texts, violated = saveload_layer(ctx, col, replay_cfgs=[(cfg, int(e.get("wseed", 0)))])
+            _drift_to_violation(ctx, violated)
+            return
+        ctx.seed = int(rp.get("seed", ctx.seed))
+        codec_layer(ctx, col)
+        text_layer(ctx, col)
+        return
     if not os.environ.get("C16_DEV_SKIP_MODEL"):
         model_layer(ctx)
-    col = T.Collector(table)
     events, texts, violated = saveload_layer(ctx, col)
     codec_layer(ctx, col)
     text_layer(ctx, col)
+    _drift_to_violation(ctx, violated)
+
+
+def _drift_to_violation(ctx, violated):
     drift = [v for v in violated if v.startswith("Conforms")]
     if drift:
         # the machine IS the model of the implemented priority rules: an unexplained difference is reported
